@@ -24,7 +24,7 @@ ASSUMPTIONS = ["kappa_inf = |M|_inf * |M^-1|_inf computed exactly; eps = 2^-53",
                "Invertible() is decided by the floating-point determinant: requests keep a relative margin from det = 0"]
 TRUSTED = ["props/c05.py: exact fraction elimination (determinant, inverse) used by the oracle"]
 
-C_INV = 64          # c of the inverse accuracy clause (calibrated: see K statistics in the evidence, x16 safety)
+C_INV = 16          # c of the inverse accuracy clause (calibrated: see K statistics in the evidence, x16 safety)
 K_DET = 2           # determinant: K_DET * (n^2 + 4n) * eps * permanent(|A|)
 KAPPA_MAX = 10 ** 8
 
@@ -297,6 +297,7 @@ def oracle(op, a, impl, ctx, scale_model=None):
         Xe = finv(M)
         kap = ninf(M) * ninf(Xe)
         tol = C_INV * n * kap * EPS
+        bump(ctx, "kappa_inf:1e%d" % max(0, int(math.log10(float(kap)))))
         I = [[Fraction(int(i == j)) for j in range(n)] for i in range(n)]
         sub = lambda P, Q: [[x - y for x, y in zip(r, s)] for r, s in zip(P, Q)]
         e_inv = ninf(sub(X, Xe)) / ninf(Xe)
